@@ -8,6 +8,7 @@ pub mod c19;
 pub mod c20;
 pub mod conc;
 pub mod evict;
+pub mod fuzzrun;
 pub mod stress;
 pub mod hist_family;
 pub mod l3phases;
